@@ -60,7 +60,9 @@ Full(m) == [ok |-> m.s = "complete", len |-> m.l, off |-> m.o,
             ty |-> IF m.t = "response" /\ ~m.resp THEN "response-nonhttp" ELSE m.t,
             rid |-> m.r, wid |-> m.w, cto |-> m.ct, pdo |-> Pdo(m), tr |-> Tr(m),
             n |-> m.n, ver |-> m.ver, he |-> m.he, tailok |-> m.tail, nb |-> m.nb,
-            clok |-> m.clf /\ m.cl = m.bl, bd |-> m.bd, u |-> m.u, st |-> m.st, mi |-> m.mi, dg |-> m.dg, hc |-> m.hc]
+            clok |-> m.clf /\ m.cl = m.bl, bd |-> m.bd, u |-> m.u, st |-> m.st, mi |-> m.mi, dg |-> m.dg, hc |-> m.hc,
+            \* what the scripted server sent for this URL (hw: known)
+            hw |-> m.hw, wst |-> m.wst, wmi |-> m.wmi, pdp |-> m.pdp, pdw |-> m.pdw]
 
 FullFiles(fl) == [f \in FIds |->
                     IF \E i \in 1..Len(fl) : fl[i].f = f
@@ -125,7 +127,9 @@ PayloadBad(t) == \E a \in AM : M(a).ok /\ M(a).ty = t /\ M(a).pdo = "other"
 
 C05Bad ==
   IF ~fin.has THEN {} ELSE
-  {i \in 1..13 :
+  {i \in 1..14 :
+     \* the payload of a response is the body the server sent (whatever else precedes the header block in the block)
+     \/ i = 14 /\ \E a \in AM : M(a).ok /\ M(a).ty = "response" /\ M(a).hw /\ M(a).pdp /\ ~M(a).pdw
      \/ i = 1 /\ ~(\A f \in FIds : /\ ValidSeq(D[f]) /\ Size(D[f]) = fin.sz[f]
                                    /\ \A k \in 1..Len(D[f]) : D[f][k].off = Offset(D[f], k))     \* FilesAreRecordSequences
      \/ i = 2 /\ \E a \in AM : M(a).ok /\ M(a).n # 1                    \* OneRecordPerGzipMember
@@ -147,7 +151,11 @@ HdrBad(c) == \E a \in RespMembers(D, FIds) :
                 M(a).hc = c /\ \E j \in LinesOf(D, L, a) : ~(L[j].st = M(a).st /\ L[j].mi = M(a).mi)
 C07Bad ==
   IF ~(fin.has /\ fin.cdxon) THEN {} ELSE
-  {i \in 1..8 :
+  {i \in 1..9 :
+     \* status and media type are those of the response the server sent (the final one, not an interim one; of its own
+     \* Content-Type field, not of text inside another field's value)
+     \/ i = 9 /\ \E a \in RespMembers(D, FIds) :
+                    M(a).hw /\ \E j \in LinesOf(D, L, a) : ~(L[j].st = M(a).wst /\ L[j].mi = M(a).wmi)
      \/ i = 1 /\ ~CdxOnePerResponse(D, FIds, L)
      \/ i = 2 /\ ~CdxNoStrayLine(D, FIds, L)
      \/ i = 3 /\ ~CdxAddressOK(D, FIds, L)
